@@ -31,6 +31,12 @@ def gen_table(rng, ncols=None, nrows=None, shape=None):
             data[1 % nrows] = -2 if integer else -2.25
         cols["X%d" % i] = {"data": data, "integer": integer}
     t = {"cols": cols, "nrows": nrows, "missing": missing, "file": "in.csv"}
+    if shape is not None and cols and rng.random() < 0.6:
+        # a non-negative column (NetCDF 'Positive *' reads)
+        c0 = cols[sorted(cols)[0]]
+        c0["data"] = [abs(v) if (missing is None or v != missing) else v for v in c0["data"]]
+        if missing is not None and missing < 0:
+            c0["data"] = [v if v != missing else 7 for v in c0["data"]]
     if shape is not None:
         t["shape"] = list(shape)
         t["file"] = "in.nc"
@@ -88,6 +94,8 @@ def gen_model(rng, n_ops=None, sinks=True, cmds=None, table=None, metadata=False
             args["DataType"] = "Integer"
         elif rng.random() < 0.5:
             args["DataType"] = "Float"
+        if libs != "csv" and all(v >= 0 for v in table["cols"][col]["data"]) and rng.random() < 0.7:
+            args["DataType"] = "Positive Integer" if table["cols"][col]["integer"] else "Positive Float"
         commands.append({"result": "In_%s" % col, "cmd": "EEMSRead", "args": args})
         pool["nonfuzzy"].append("In_%s" % col)
         colvals["In_%s" % col] = [v for v in table["cols"][col]["data"] if v != table["missing"]]
